@@ -60,4 +60,17 @@ def run (s : State) : List Label → State × List Out
     let (sf, os) := run s' rest
     (sf, o :: os)
 
+/-! ### Two slots side by side (the shared and the internal slot of a process, or any two `AmbientSlot`s) -/
+
+/-- a step addressed to slot `k` (`false` = the first, `true` = the second) -/
+def step2 (s : State × State) (k : Bool) (l : Label) : (State × State) × Out :=
+  if k then let r := step s.2 l; ((s.1, r.1), r.2) else let r := step s.1 l; ((r.1, s.2), r.2)
+
+def run2 (s : State × State) : List (Bool × Label) → (State × State) × List Out
+  | [] => (s, [])
+  | (k, l) :: rest =>
+    let r := step2 s k l
+    let rr := run2 r.1 rest
+    (rr.1, r.2 :: rr.2)
+
 end EmitModel.Slot
